@@ -254,6 +254,13 @@ def run(chk: Check):
     from .c01 import rule_column_unit, rule_lookahead_cover
     rule_lookahead_cover(chk, ir)
     rule_column_unit(chk, only_consistent=True)
+    # how a word is cut into tokens (number/name sub-languages, keyword table) and where glued nodes end decide adjacency
+    from .c09 import rule_k1
+    from .c02 import rule_x5
+    from .. import constfold
+    rule_k1(chk, constfold.fold_tokenize(), False)
+    rule_x5(chk, ir)
+    tr.feed(chk, {"A5-loc-key": "A5-loc-key", "A5-loc-pair": "A5-loc-pair", "A5-loc-order": "A5-loc-order"})
     chk.floor("P1-bracket-table", 9)
     chk.floor("P2-adjacency", 4)
     chk.floor("P3-whitespace-tokens", 2)
